@@ -147,7 +147,9 @@ SPEC = {
                      "eliminate_node = remove v and make N(v) a clique, min_fill returns a permutation of the vertices and leaves its argument "
                      "untouched, tree_decomposition dispatches on method; tree_decomposition_from_order (nested recursive build verified against "
                      "its own contract): every vertex and every edge of the graph lies in some bag, bags consist of vertices, the result is "
-                     "non-empty (AssertionError of the clique search is declared possible: the Helly property is not proved). Bounded "
+                     "non-empty (AssertionError of the clique search is declared possible: the Helly property is not proved); contract_edge "
+                     "(exact view), simplicial / almost_simplicial (decide what their names say), connected_components (a partition of the "
+                     "vertices outside s into non-empty blocks that no edge leaves except into s). Bounded "
                      "(exhaustive up to the stated vertex bound): running intersection, tree shape, optimality, acb."),
     "C11": dict(level="other", pyvc=False, extra=[_own("assert_purity"), _semvc("vf.semvc.homs.run_c11")],
                 text="Proved: every assert / `if __debug__` block is a check only (python -O/-OO safe); log, support and max<=+ are semiring "
